@@ -293,3 +293,19 @@ Definition fn_status_of (err_is_nil : bool) : Z :=
   fst (fst (fn_commit unit unit tt (tt, if err_is_nil then None else Some tt))).
 Definition fn_result_kept (err_is_nil : bool) : bool :=
   match snd (fst (fn_commit bool unit false (true, if err_is_nil then None else Some tt))) with true => true | false => false end.
+
+(* sequential executions of one CurlJob by thread 0 with the scripted outcomes (code < 0 = transport
+   error); returns (open bodies, code of the held response or -1, status) or None if a label is
+   not enabled *)
+Definition cu_script_outcome (with_body : bool) (code : Z) : cu_outcome unit :=
+  if (code <? 0)%Z then (None, Some tt) else (Some (code, with_body), None).
+Definition cu_one_exec (cb : bool) (o : cu_outcome unit) : list (jlabel (cu_outcome unit)) :=
+  [JLock 0; JDo 0 o; JWrite 0; JWrite 0; JUnlock 0] ++ (if cb then [JCallback 0] else []) ++ [JReturn 0].
+Definition cu_seq_model (cb with_body : bool) (script : list Z) : option (nat * Z * Z * nat) :=
+  match jrun (cu_body unit) (cu_cfg cb) jinit (flat_map (fun c => cu_one_exec cb (cu_script_outcome with_body c)) script) with
+  | Some s => Some (j_open s,
+                    match fst (cu_visible s) with Some (c, _) => c | None => (-1)%Z end,
+                    snd (cu_visible s),
+                    jcount (is_callback 0) (j_log s))
+  | None => None
+  end.
